@@ -314,7 +314,54 @@ let run_tape = function
      | AllocFail -> "allocfail")
   | _ -> "ERR bad tape line"
 
-let handlers : (string * (string list -> string)) list ref = ref [ ("cell", run_cell); ("bf", run_bf); ("inplace", run_inplace); ("ir", run_ir); ("bc", run_bc); ("parse", run_parse); ("bfbig", run_bfbig); ("tape", run_tape); ("bfcycle", run_bfcycle); ("irbig", run_irbig) ]
+
+(* svec|N|ops -> one observation per op, then the ledger summary *)
+let rb = function "0" -> false | "1" -> true | x -> failwith ("bad reg " ^ x)
+let parse_sops (s : string) : sop list =
+  List.filter_map (fun x ->
+      if x = "" then None else
+        match split_on ':' x with
+        | ["n"; r] -> Some (ONew (rb r))
+        | ["wc"; r; n] -> Some (OWithCap (rb r, nat_of_int (int_of_string n)))
+        | ["p"; r; v] -> Some (OPush (rb r, zs v))
+        | ["e"; r; vs] -> Some (OExtend (rb r, (if vs = "" then [] else List.map zs (split_on ',' vs))))
+        | ["cl"; r] -> Some (OClear (rb r))
+        | ["rt"; r; ks] | ["rm"; r; ks] -> Some (ORetain (rb r, List.init (String.length ks) (fun i -> ks.[i] = '1')))
+        | ["dd"; r] -> Some (ODedup (rb r))
+        | ["cn"; r] -> Some (OClone (rb r))
+        | ["eq"] -> Some OEq
+        | ["cmp"] -> Some OCmp
+        | ["so"; r] -> Some (OSort (rb r))
+        | ["ii"; r; k] -> Some (OIntoIter (rb r, nat_of_int (int_of_string k)))
+        | ["it"; r] -> Some (OIter (rb r))
+        | _ -> failwith ("bad svec op " ^ x)) (split_on ';' s)
+
+let elems_s (l : (nat * z) list) : string =
+  "[" ^ String.concat " " (List.map (fun (i, v) -> string_of_int (int_of_nat i) ^ "." ^ sz v) l) ^ "]"
+
+let run_svec = function
+  | [n; ops] ->
+    let n = nat_of_int (int_of_string n) in
+    let ops = parse_sops ops in
+    let (obs, sf) = sv_run n ops sstate0 in
+    let strs = List.map (function
+        | SView (l, h) -> elems_s l ^ (if h then "h" else "i")
+        | SBool b -> "b=" ^ (if b then "1" else "0")
+        | SOrd c -> "o=" ^ (match c with Eq -> "eq" | Lt -> "lt" | Gt -> "gt")
+        | SItems l -> "items" ^ elems_s l) obs in
+    let fin = List.map int_of_nat (sv_final sf) in
+    let created = int_of_nat sf.next_id in
+    let cnt = Array.make (created + 1) 0 in
+    List.iter (fun i -> if i < created then cnt.(i) <- cnt.(i) + 1) fin;
+    let leaked = ref [] and dbl = ref [] in
+    for i = created - 1 downto 0 do
+      if cnt.(i) = 0 then leaked := string_of_int i :: !leaked;
+      if cnt.(i) > 1 then dbl := string_of_int i :: !dbl
+    done;
+    String.concat " " strs ^ Printf.sprintf " | created=%d leaked=%s double=%s" created (String.concat "," !leaked) (String.concat "," !dbl)
+  | _ -> "ERR bad svec line"
+
+let handlers : (string * (string list -> string)) list ref = ref [ ("cell", run_cell); ("bf", run_bf); ("inplace", run_inplace); ("ir", run_ir); ("bc", run_bc); ("parse", run_parse); ("bfbig", run_bfbig); ("svec", run_svec); ("tape", run_tape); ("bfcycle", run_bfcycle); ("irbig", run_irbig) ]
 
 let () =
   (try
